@@ -344,7 +344,7 @@ func serveReal(he *httpEnv, verb, path string, hdr [][2]string, body []byte) (st
 		return 0, "harness: dial: " + err.Error(), ""
 	}
 	defer conn.Close()
-	_ = conn.SetDeadline(time.Now().Add(20 * time.Second))
+	_ = conn.SetDeadline(time.Now().Add(60 * time.Second))
 	var sb bytes.Buffer
 	fmt.Fprintf(&sb, "%s %s HTTP/1.1\r\nHost: wb.test\r\nConnection: close\r\n", verb, path)
 	hasCL := false
@@ -1448,6 +1448,7 @@ func main() {
 	}
 	wg.Wait()
 
+	r.Set("crashes_not_reproduced_in_a_fresh_child", wb.NotReproduced.Load())
 	for s := range res {
 		if res[s].err != nil {
 			r.Fatal("isolated run: %v", res[s].err)
@@ -1561,7 +1562,11 @@ func evaluate(r *mon.Run, c Case, o mon.Outcome) {
 	case "real":
 		if out.RealErr != "" {
 			if strings.HasPrefix(out.RealErr, "timeout") {
-				r.Inconclusive("real-listener client timed out: " + where)
+				path := fmt.Sprintf("%s/replays/C03-realtimeout-seed%d-%s.json", r.RootDir(), r.Seed(), mon.Hash(gen.B64(body)))
+				if data, err := json.MarshalIndent(map[string]any{"property": "C03", "signature": "real:timeout", "witness": w}, "", " "); err == nil {
+					_ = os.WriteFile(path, data, 0o644)
+				}
+				r.Inconclusive("real-listener client timed out (" + path + "): " + where)
 			} else if strings.HasPrefix(out.RealErr, "harness:") {
 				r.Count("harness_skipped", 1)
 			} else {
